@@ -1049,14 +1049,25 @@ func (x *Exec) pureApp(fr *Frame, st *State, key string, con *Contract, sig *typ
 			eff := newEffects()
 			switch u := t.Underlying().(type) {
 			case *types.Struct:
-				x.structEffect(eff, t)
+				// the type's own (non-struct) fields; embedded caches such as atomic.Value are not part of the value
+				for i := 0; i < u.NumFields(); i++ {
+					f := u.Field(i)
+					if kindOf(f.Type()) != KStruct {
+						eff.keys[fieldKey(t, sanitize(f.Name()))] = f.Type()
+					}
+				}
 			case *types.Slice:
 				eff.keys[elemKey(u.Elem())] = u.Elem()
 			default:
 				panic(oos("reads option of %s: unsupported type %s", key, ts))
 			}
-			for _, k := range sortedKeys(eff.keys) {
+			// element stores last: updates of arrays allocated in this function that no argument mentions are irrelevant
+			ks := sortedKeys(eff.keys)
+			sort.SliceStable(ks, func(i, j int) bool { return !strings.HasPrefix(ks[i], "E.") && strings.HasPrefix(ks[j], "E.") })
+			for _, k := range ks {
+				x.matContext = strings.Join(terms, " ")
 				ss, ts2 := x.materialize(st, k, eff.keys[k])
+				x.matContext = ""
 				sorts = append(sorts, ss...)
 				terms = append(terms, ts2...)
 			}
@@ -1176,7 +1187,10 @@ func (x *Exec) materialize(st *State, key string, t types.Type) (sorts, terms []
 			term := l.base[k]
 			ok := true
 			for _, u := range l.ups {
-				if u.bulk || u.zero || u.havoc != nil {
+				if x.matContext != "" && strings.HasPrefix(u.arr, "ref!") && !strings.Contains(x.matContext, u.arr) {
+					continue // a fresh array nobody passed to the function
+				}
+				if u.bulk || u.zero || u.havoc != nil || u.fromVal != "" {
 					ok = false
 					break
 				}
@@ -1519,17 +1533,63 @@ func (e *SpecEnv) builtinSpec(name string, c *ast.CallExpr) (Val, bool) {
 			return boolVal(sEq(a.Arr, "0")), true
 		}
 		return boolVal(sEq(a.S, "0")), true
+	case "unchanged":
+		// unchanged(s): the slice header and every element are what they were in the pre-state
+		if e.old == nil {
+			sfail("unchanged() without a pre-state")
+		}
+		now := arg(0)
+		oe := *e
+		oe.st = e.old
+		was := oe.eval(c.Args[0])
+		if now.K != KSlice || was.K != KSlice {
+			sfail("unchanged() expects a slice")
+		}
+		frozen, frozenOld := e.st.snapshot(), e.old
+		x := e.x
+		body := func(t string) *F {
+			a, b := x.elemRead(frozen, now, t), x.elemRead(frozenOld, was, t)
+			if x.probe != nil && strings.Contains(t, "?probe") {
+				*x.probe = append(*x.probe, SeqRef{now.Arr, now.Off})
+			}
+			eq := x.valEq(a, b)
+			if eq == "" {
+				sfail("unchanged(): elements are not comparable")
+			}
+			return atom(eq)
+		}
+		return bval(&F{Op: "and", Kids: []*F{atom(sAnd(sEq(now.Arr, was.Arr), sEq(now.Off, was.Off), sEq(now.Len, was.Len))), {Op: "forall", Var: "u", Lo: "0", Hi: now.Len, Body: body}}}), true
+	case "strof":
+		// the string a byte content converts to (map keys built with string(bytes))
+		a := arg(0)
+		if a.K != KArr {
+			sfail("strof() expects a content value")
+		}
+		e.x.decls.Fun("strof", []string{"Val"}, "Str")
+		e.x.decls.Fun("strof.inv", []string{"Str"}, "Val")
+		e.x.injective("strof")
+		return Val{K: KStr, T: types.Typ[types.String], S: "(strof " + a.S + ")"}, true
 	case "bytesEq":
 		a, b := arg(0), arg(1)
 		if a.K != KSlice || b.K != KSlice {
 			sfail("bytesEq on non-slices")
 		}
-		et := a.T.Underlying().(*types.Slice).Elem()
-		l := e.x.lazyFor(e.st, et).clone()
-		body := func(t string) *F {
-			return atom(sEq(l.read(a.Arr, sAdd(a.Off, t))[0], l.read(b.Arr, sAdd(b.Off, t))[0]))
+		return boolVal(e.x.contentEq(e.st, a, b)), true
+	case "content":
+		a := arg(0)
+		if a.K == KArr {
+			// content of an array value (e.g. a SignData): the same key its full slice would have
+			fn := "arrcontent." + typeName(a.T)
+			e.x.decls.Fun(fn, []string{"Val"}, "Val")
+			e.x.decls.Fun(fn+".inv", []string{"Val"}, "Val")
+			t := "(" + fn + " " + a.S + ")"
+			e.x.injective(fn)
+			return Val{K: KArr, T: a.T, S: t}, true
 		}
-		return bval(&F{Op: "and", Kids: []*F{atom(sEq(a.Len, b.Len)), {Op: "forall", Var: "i", Lo: "0", Hi: a.Len, Body: body}}}), true
+		if a.K != KSlice {
+			sfail("content() of %s", kindName(a.K))
+		}
+		return Val{K: KArr, T: types.NewArray(types.Typ[types.Uint8], 0), S: e.x.contentOf(e.st, a)}, true
 	case "typeIs":
 		// typeIs(x, "pkg.T") : dynamic type test on interface values
 		a := arg(0)
